@@ -235,7 +235,7 @@ def strategy(tier):
 
 
 def budget(tier):
-    return 1500 if tier == "quick" else 15000
+    return 1500 if tier == "quick" else 150000
 
 
 def classify(case):
